@@ -315,12 +315,54 @@ def run(tier: str, budget: Budget, rnd, prop: str) -> StreamResult:
                                                    "model": script.outs[idx]})
             if len(res.disagreements) >= 10:
                 break
+    if prop in ("C08", "C03"):
+        hash_twin_cases(res, rnd, prop)
     if prop == "C08":
         nonfinite_knowledge_cases(res, rnd, tier)
     if prop == "C01":
         from common import optimized_probe
         optimized_probe(res, "game", rnd.randrange(10 ** 6), "bounds:interpreter-flag")
     return res
+
+
+def hash_twin_cases(res, rnd, prop) -> None:
+    """Oracle on the real code.  Knowledge states on the SAME known set whose values differ only in numbers that Python hashes alike
+    (hash(-1.0) == hash(-2.0); hash(2.0**61) == hash(1.0); 0.0 / -0.0): the value of one known coalition is switched between such twins
+    on one game object, recomputing each time — the bounds must be those of a fresh game with the current values every time."""
+    import numpy as np
+    from incomplete_cooperative.coalitions import Coalition
+    from incomplete_cooperative.game import IncompleteCooperativeGame
+    twins = [(-1.0, -2.0), (1.0, 2.0 ** 61), (0.0, -0.0)]
+    for comp in ("sa", "sac", "sam:1"):
+        for n in (3, 4):
+            N = 2 ** n
+            K = sorted(set(G.minimal_ids(n)) | {3})
+            for a, b in twins:
+                for where in (1, 3, N - 1):
+                    base = {k: float(-(G.popcount(k) ** 2)) if comp.startswith("sam") else float(G.popcount(k) ** 2) for k in K}
+                    g = IncompleteCooperativeGame(n, computer(comp))
+                    for val in (a, b, a):
+                        vals = dict(base)
+                        vals[where] = val
+                        try:
+                            g.set_known_values([vals[k] for k in K], [Coalition(k) for k in K])
+                            g.compute_bounds()
+                            fresh = IncompleteCooperativeGame(n, computer(comp))
+                            fresh.set_known_values([vals[k] for k in K], [Coalition(k) for k in K])
+                            fresh.compute_bounds()
+                        except Exception:       # noqa: BLE001    such values may be outside a computer's domain: no verdict
+                            res.count("hash-twins:raised")
+                            break
+                        res.evaluations += 1
+                        res.count("hash-twins")
+                        same = np.array_equal(np.array(g.get_lower_bounds()), np.array(fresh.get_lower_bounds()), equal_nan=True) and \
+                            np.array_equal(np.array(g.get_upper_bounds()), np.array(fresh.get_upper_bounds()), equal_nan=True)
+                        if not same:
+                            res.violation(f"{comp}: after the value of known coalition {where} was switched to {val!r} (from its hash twin) on one game "
+                                          "object and the bounds recomputed, they are not those of a fresh game with the current values",
+                                          {"n": n, "computer": comp, "K": K, "values": {str(k): vals[k] for k in K}, "twins": [a, b], "coalition": where},
+                                          key="bounds:hash-twins")
+                            return
 
 
 def nonfinite_knowledge_cases(res, rnd, tier) -> None:
